@@ -15,7 +15,7 @@ from . import wire
 from .vnet import EOF, RST
 
 # GEX selection styles
-STRICT, ROUNDUP, OPENSSH = 'strict', 'roundup', 'openssh'
+STRICT, ROUNDUP, OPENSSH, LENIENT = 'strict', 'roundup', 'openssh', 'lenient'
 
 
 class Conn:
@@ -331,6 +331,11 @@ class GexPolicy:
         if self.style == ROUNDUP:
             c = [x for x in s if x >= mn]
             return c[0] if c else None
+        if self.style == LENIENT:
+            # RFC 4419 section 3 read literally: the smallest group at least as large as the preferred size, else the largest known;
+            # the requested minimum and maximum are not enforced
+            c = [x for x in s if x >= pref]
+            return (min(c) if c else max(s)) if s else None
         if self.style == OPENSSH:
             # dh.c choose_dh(): best = smallest size >= wantbits within [min,max]; else largest within range;
             # else fall back to a built-in group chosen by max.
